@@ -407,6 +407,127 @@ def eval_ops(case, ctx):
         _unit_rows(ctx, 'QuaternionArray(n)', r, k)
 
 
+# ------------------------------------------------------------------ structured byte-level inputs (also the atheris target)
+
+def _fuzz_case():
+    specials = [0.0, -0.0, 1.0, -1.0, 'nan', 'inf', '-inf', 1e-100, 1e100, 5e-324, 1e-300, 0.5]
+    val = st.one_of(gen.fl(-2.0, 2.0), st.sampled_from(specials))
+
+    @st.composite
+    def build(draw):
+        target = draw(st.sampled_from(['Quaternion', 'QuaternionArray', 'DCM']))
+        if draw(st.booleans()):
+            shape = draw(st.sampled_from({'Quaternion': [[4], [3]], 'QuaternionArray': [[2, 4], [1, 3], [3, 4]], 'DCM': [[3, 3], [2, 3, 3]]}[target]))
+        else:
+            shape = draw(st.lists(st.integers(1, 5), min_size=0, max_size=3))
+        size = int(np.prod(shape)) if shape else 1
+        rot = None
+        if target == 'DCM' or draw(st.booleans()):
+            rot = {'axis': [draw(gen.fl(-1, 1)) for _ in range(3)], 'angle': draw(gen.fl(-3.2, 3.2)),
+                   'perturb': draw(st.sampled_from([0.0, 1e-13, 1e-3, -1e-3, 0.5])), 'kind': draw(st.sampled_from(['none', 'scale', 'reflect', 'shear', 'entry']))}
+        return {'target': target, 'shape': shape, 'dtype': draw(st.sampled_from(['float', 'float', 'float', 'int', 'bool', 'object', 'str'])),
+                'vals': [draw(val) for _ in range(size)], 'rot': rot, 'as_list': draw(st.booleans())}
+    return build()
+
+
+def eval_fuzz(case, ctx):
+    """Two-sided predicate over arbitrary array-like inputs of the three constructors."""
+    from ahrs import Quaternion, QuaternionArray, DCM
+    target, shape, dtype = case['target'], list(case['shape']), case['dtype']
+    vals = [float(v) if not isinstance(v, str) else float(v) for v in case['vals']]
+    ctx.label(f'target={target}', f'dtype={dtype}')
+    ctx.nt(True)
+    arr = np.array(vals, dtype=float).reshape(shape) if shape else np.array(vals[0])
+    rot = case.get('rot')
+    if target == 'DCM' and rot is not None and shape in ([3, 3], [2, 3, 3]):
+        ax = np.array(rot['axis'], dtype=float)
+        if np.linalg.norm(ax) < 1e-3:
+            ax = np.array([0.0, 0.0, 1.0])
+        R = oracle.rodrigues(ax, float(rot['angle']))
+        k, pz = rot['kind'], float(rot['perturb'])
+        if k == 'scale':
+            R = R*(1.0 + pz)
+        elif k == 'reflect':
+            R = R.copy()
+            R[:, 0] *= -1.0
+        elif k == 'shear':
+            S = np.identity(3)
+            S[0, 1] = pz
+            R = S @ R
+        elif k == 'entry':
+            R = R.copy()
+            R[1, 2] += pz
+        arr = R if shape == [3, 3] else np.array([oracle.rodrigues([0, 0, 1.0], 0.3), R])
+    if dtype == 'int':
+        if not np.all(np.isfinite(arr)):
+            dtype = 'float'
+        else:
+            arr = np.round(arr).astype(int)
+    elif dtype == 'bool':
+        arr = np.nan_to_num(arr) != 0
+    elif dtype == 'object':
+        arr = arr.astype(object)
+    elif dtype == 'str':
+        arr = arr.astype(str)
+    arg = arr.tolist() if case['as_list'] and arr.ndim >= 1 else arr
+    numeric = dtype in ('float', 'int')
+    a = np.asarray(arr, dtype=float) if numeric else None
+    finite = numeric and bool(np.all(np.isfinite(a)))
+    verdict = 'skip'
+    if target == 'Quaternion':
+        if not numeric or a.ndim != 1 or a.shape[0] not in (3, 4) or not finite or not np.any(a):
+            verdict = 'invalid'
+        else:
+            nrm = float(np.linalg.norm(a/np.max(np.abs(a)))*np.max(np.abs(a)))
+            verdict = 'valid' if 1e-100 <= nrm <= 1e100 else 'skip'
+        if dtype == 'bool':
+            verdict = 'skip'
+    elif target == 'QuaternionArray':
+        if dtype in ('object', 'str') or (numeric and (a.ndim != 2 or a.shape[1] not in (3, 4))) or (numeric and a.ndim == 2 and a.shape[1] in (3, 4) and (not finite or np.any(~np.any(a != 0, axis=1)))):
+            verdict = 'invalid'
+        elif numeric and finite:
+            nr = np.array([np.linalg.norm(r/np.max(np.abs(r)))*np.max(np.abs(r)) for r in a])
+            verdict = 'valid' if np.all((nr >= 1e-100) & (nr <= 1e100)) else 'skip'
+        if dtype == 'bool':
+            verdict = 'skip'
+    else:
+        if not numeric or a.ndim not in (2, 3) or a.shape[-2:] != (3, 3) or not finite:
+            verdict = 'invalid'
+        else:
+            mats = a if a.ndim == 3 else a[None]
+            dist = max(max(float(np.max(np.abs(m @ m.T - np.identity(3)))), abs(float(np.linalg.det(m)) - 1.0)) for m in mats)
+            verdict = 'valid' if dist <= 1e-12 else ('invalid' if dist > 1e-4 else 'skip')
+        if dtype == 'bool':
+            verdict = 'skip'
+    if not numeric:
+        verdict = 'skip'        # bool / object / str content is not among the kinds the statement says must be rejected
+    ctx.label(f'verdict={verdict}')
+    if verdict == 'skip':
+        return
+    cls = {'Quaternion': Quaternion, 'QuaternionArray': QuaternionArray, 'DCM': DCM}[target]
+    try:
+        obj = cls(arg)
+    except REJECT:
+        if verdict == 'valid':
+            ctx.fail(f'fuzz|{target}|valid_input_rejected', f'shape {shape} dtype {dtype}: {np.asarray(arr).tolist()!r}'[:250])
+        return
+    except Exception as e:
+        ctx.fail(f'fuzz|{target}|wrong_exception|{type(e).__name__}', f'shape {shape} dtype {dtype}: {type(e).__name__}: {e}'[:250])
+        return
+    if verdict == 'invalid':
+        ctx.fail(f'fuzz|{target}|invalid_input_accepted|{dtype}', f'shape {shape} dtype {dtype}: {np.asarray(arr).tolist()!r} -> {np.asarray(obj).tolist()!r}'[:300])
+        return
+    o = np.asarray(obj, dtype=float)
+    if target == 'DCM':
+        mats = o if o.ndim == 3 else o[None]
+        if not all(_in_SO3(m) for m in mats):
+            ctx.fail(f'fuzz|{target}|valid_input_gives_invalid_object', f'{o.tolist()!r}'[:250])
+    else:
+        rows = o if o.ndim == 2 else o[None]
+        if not np.all(np.isfinite(rows)) or float(np.max(np.abs(np.linalg.norm(rows, axis=1) - 1.0))) > 1e-12:
+            ctx.fail(f'fuzz|{target}|valid_input_gives_invalid_object', f'{o.tolist()!r}'[:250])
+
+
 def selftest():
     oracle.selftest()
 
@@ -416,4 +537,7 @@ SUBCHECKS = {
     'dcm_valid': Sub(lambda tier: _dcm_valid_case(), eval_dcm_valid, quick=5000, thorough=300000),
     'dcm_invalid': Sub(lambda tier: _dcm_invalid_case(), eval_dcm_invalid, quick=6000, thorough=300000),
     'ops': Sub(lambda tier: _ops_case(), eval_ops, quick=5000, thorough=300000),
+    'fuzz': Sub(lambda tier: _fuzz_case(), eval_fuzz, quick=8000, thorough=400000),
 }
+
+FUZZ = True      # thorough tier additionally runs the atheris campaign of vf/fuzz/target.py on the 'fuzz' sub-check
